@@ -417,7 +417,7 @@ def g_sle():
     return run
 
 
-BUDGET_S = {'quick': 400, 'thorough': 3000}
+BUDGET_S = {'quick': 400, 'thorough': 1200}
 
 
 def groups(tier):
